@@ -20,8 +20,8 @@ Fresh == [alive |-> FALSE, g |-> "nil", cfg |-> FALSE, limited |-> FALSE]
 InitState == [i \in Insts |-> Fresh]
 
 \* input kinds of sqfvm_call with type 's'
-SqfKinds == {"setg1", "setg2", "readg", "readcfg", "ppfail", "parsefail", "rterr", "rterr_spawned", "endless", "sleeper", "yielder", "napper", "empty"}
-CfgKinds == {"cfgok", "cfgparsefail", "cfgppfail"}
+SqfKinds == {"evalerr", "setg1", "setg2", "readg", "readcfg", "ppfail", "parsefail", "rterr", "rterr_spawned", "endless", "sleeper", "yielder", "napper", "empty"}
+CfgKinds == {"cfgok", "cfgparsefail", "cfgppfail", "cfgevalerr"}
 
 ToS(n) == ToString(n)
 
@@ -33,7 +33,7 @@ Apply(st, o) ==
       [] o.op = "null" ->      \* any call on a handle that is no instance: NULL, or memory that does not carry the instance tag (o.hk)
             [st |-> st, obs |-> [ret |-> -1, status |-> -1, out |-> ""]]
       [] o.op = "config" ->
-           (CASE o.kind = "cfgok" -> [st |-> [st EXCEPT ![o.i].cfg = TRUE], obs |-> [ret |-> 0, status |-> 0, out |-> ""]]
+           (CASE o.kind \in {"cfgok", "cfgevalerr"} -> [st |-> [st EXCEPT ![o.i].cfg = TRUE], obs |-> [ret |-> 0, status |-> 0, out |-> ""]]
               [] o.kind = "cfgparsefail" -> [st |-> st, obs |-> [ret |-> -3, status |-> 0, out |-> ""]]
               [] o.kind = "cfgppfail" -> [st |-> st, obs |-> [ret |-> -2, status |-> 0, out |-> ""]])
       [] o.op = "call" ->
@@ -44,7 +44,9 @@ Apply(st, o) ==
             ELSE IF o.type = "a" THEN (IF o.kind = "asmok" THEN [st |-> [st EXCEPT ![o.i].g = "1"], obs |-> [ret |-> 0, status |-> 0, out |-> ""]]
                                        ELSE [st |-> st, obs |-> [ret |-> -3, status |-> 0, out |-> ""]])
             ELSE \* type "s"
-           (CASE o.kind = "setg1" -> [st |-> [st EXCEPT ![o.i].g = "1"], obs |-> [ret |-> 0, status |-> 0, out |-> ""]]
+           \* evalerr: the text holds an __EVAL whose expression fails while the text is preprocessed (it expands to nothing);
+           \* what is left is valid and sets g to 1
+           (CASE o.kind \in {"setg1", "evalerr"} -> [st |-> [st EXCEPT ![o.i].g = "1"], obs |-> [ret |-> 0, status |-> 0, out |-> ""]]
               [] o.kind = "setg2" -> [st |-> [st EXCEPT ![o.i].g = "2"], obs |-> [ret |-> 0, status |-> 0, out |-> ""]]
               [] o.kind = "readg" -> [st |-> st, obs |-> [ret |-> 0, status |-> 0, out |-> "G:" \o s.g]]
               [] o.kind = "readcfg" -> [st |-> st, obs |-> [ret |-> 0, status |-> 0, out |-> "C:" \o (IF s.cfg THEN "1" ELSE "0")]]
